@@ -19,6 +19,7 @@ var props = []Prop{
 		Level: "proof",
 		Harnesses: hs("ecs", true, 1, "HC04_Get", "HC04_Set", "HC04_Not", "HC04_AndOrXor", "HC04_Contains", "HC04_ContainsAny",
 			"HC04_IsZeroReset", "HC04_TotalBitsSet", "HC04_All", "HC04_MaskMatches", "HC04_MaskFilter", "HC04_Without", "HC04_Exclusive", "HC04_Equality"),
+		Extra: append(hs("filter", true, 1, "HC04_Leaves", "HC04_LeafSemantics"), H{Pkg: "filter", Fn: "HC04_Logic"}, H{Pkg: "filter", Fn: "HC04_Logic", Tags: "tiny", Tier: "thorough"}),
 		Conform: smokeConform,
 		Bounds:  "masks and ids fully symbolic (all 2^256 / 2^64 masks, all 256 / 64 ids); All/Without with at most 4/3 ids; logic filters nested to depth 2 (all shapes) and depth 3 (spines)",
 		Outside: "All() with more than 4 ids; logic nesting deeper than 3; tiny build behaviour for ids >= 64",
